@@ -155,7 +155,7 @@ PROFILES.update({
              "kcall_deaths": 0.6, "hooks": ["after_spawn", "before_stop", "after_stop"], "norespawn": True},
     "term": {"stop_children": True, "stop_signal": True, "fork": 0.15, "stubborn": 0.5,
              "cmds": ["stop", "kill", "decr", "restart", "reload", "signal"], "instant": 0.2},
-    "acct": {"watchers": 3, "hooks": ["before_spawn", "after_spawn", "before_start", "after_start"], "faults": 0.3,
+    "acct": {"watchers": 3, "badnb": 0.05, "hooks": ["before_spawn", "after_spawn", "before_start", "after_start"], "faults": 0.3,
              "kcall_deaths": 0.6, "cmds": ["start", "stop", "incr", "decr", "kill", "restart", "list", "numprocesses"],
              "norespawn": True},
     "overlap": {"cmds": ["kill", "kill", "signal", "stop", "restart", "reload", "start", "incr", "status", "list",
@@ -230,3 +230,94 @@ def directory(seed, conf=False):
 
 PROFILES["directory"] = directory
 PROFILES["conf_dir"] = lambda seed: directory(seed, conf=True)
+
+
+def refusal(seed):
+    """C11: corrupted versions of valid requests fired at reachable daemon states (several watchers, stopped and
+    active, an operation in flight); the monitors compare the observable state before and after each refusal."""
+    import random
+    rng = random.Random(seed)
+    ws = [{"name": "w1", "np": rng.choice([1, 2]), "G": rng.choice([0.1, 0.3]), "W": rng.choice([0.0, 0.1])},
+          {"name": "w2", "np": 1, "G": 0.2, "W": 0.0, "singleton": True},
+          {"name": "w3", "np": rng.choice([0, 1]), "G": 0.1, "W": 0.0, "autostart": rng.random() < 0.5}]
+    sc = {"seed": seed, "watchers": ws, "check_delay": 0.5, "warmup_delay": 0.0, "stubborn": ["w1"] if rng.random() < 0.5 else [],
+          "obeys": [True], "instant_death": False, "script": [{"op": "boot"}, {"op": "tick", "n": rng.randint(2, 8)}]}
+    s = sc["script"]
+    names = ["w1", "w2", "w3", "W1", "nosuch", "", 7]
+    sigs = ["bogus", "SIG", "", 99999, "TERM ", None, [], "KILL!"]
+
+    def corrupt():
+        k = rng.randrange(16)
+        n = rng.choice(["w1", "w2", "w3"])
+        if k == 0:
+            return {"op": "req", "cmd": None, "raw": rng.choice(['{"command": "stop", "properties": {"name": "w1"}',
+                                                                   'stop w1', '{"command": stop}', '\x00\x01'])}
+        if k == 1:
+            return {"op": "req", "cmd": rng.choice(["stopp", "", "KILLALL", "st op"]), "props": {"name": n}}
+        if k == 2:
+            return {"op": "req", "cmd": rng.choice(["stop", "incr", "kill", "signal", "rm", "set", "options", "reload"]),
+                    "props": {"name": rng.choice(["nosuch", "w9", "W 1"]), "signum": 15, "options": {"numprocesses": 2}}}
+        if k == 3:
+            return {"op": "req", "cmd": rng.choice(["incr", "decr", "kill", "rm", "set", "add", "signal"]), "props": {}}
+        if k == 4:
+            return {"op": "req", "cmd": "set", "props": {"name": n, "options": rng.choice([[1], "x", 3])}}
+        if k == 5:
+            return {"op": "req", "cmd": "set", "props": {"name": n, "options": {rng.choice(["nosuchoption", "numprocesse", ""]): 2}}}
+        if k == 6:
+            return {"op": "req", "cmd": "set", "props": {"name": n, "options": {rng.choice(
+                ["numprocesses", "warmup_delay", "graceful_timeout", "max_retry"]): rng.choice(["x", [], {"a": 1}, None])}}}
+        if k == 7:      # semantically invalid values; multi-option with the bad one in any position
+            good = [("warmup_delay", 0.2), ("graceful_timeout", 0.4), ("max_retry", 3)]
+            bad = rng.choice([("numprocesses", 3) if n == "w2" else ("uid", "no-such-user-xyz"),
+                              ("gid", "no-such-group-xyz"), ("hooks.before_start", "nosuchmodule.fn,false"),
+                              ("uid", "no-such-user-xyz")])
+            items = rng.sample(good, rng.choice([0, 1, 2]))
+            items.insert(rng.randint(0, len(items)), bad)
+            return {"op": "req", "cmd": "set", "props": {"name": n if bad[0] != "numprocesses" else "w2",
+                                                         "options": dict(items), "waiting": rng.random() < 0.5}}
+        if k == 8:
+            return {"op": "req", "cmd": rng.choice(["signal", "kill"]), "props": {"name": n, "signum": rng.choice(sigs)}}
+        if k == 9:
+            return {"op": "req", "cmd": "add", "props": {"name": rng.choice(["w1", "W2", "w3"]), "cmd": "simworker x",
+                                                         "start": rng.random() < 0.5}}
+        if k == 10:
+            return {"op": "req", "cmd": "add", "props": {"name": "n%d" % rng.randint(1, 3), "cmd": "simworker x",
+                                                         "options": rng.choice([{"nosuch": 1}, {"numprocesses": "x"},
+                                                                                {"singleton": True, "numprocesses": 3},
+                                                                                {"stop_signal": "bogus"}, [1]])}}
+        if k == 11:
+            return {"op": "req", "cmd": rng.choice(["start", "stop", "restart"]), "props": {"name": n, "match": "nosuch"}}
+        if k == 12:
+            return {"op": "req", "cmd": "signal", "props": {"name": n, "signum": 15, "childpid": 424242}}
+        if k == 13:
+            return {"op": "req", "cmd": rng.choice(["incr", "decr"]), "props": {"name": n, "nb": rng.choice(["x", None, [], 1.5])}}
+        if k == 14:     # conflicts: exclusive requests while something is in flight
+            return {"op": "req", "cmd": rng.choice(["stop", "start", "incr", "set", "rm", "add", "reload", "quit", "restart"]),
+                    "props": {"name": n, "options": {"numprocesses": 1}, "cmd": "simworker x"}, "conflict": True}
+        return {"op": "req", "cmd": "stats", "props": {"name": n, "process": rng.choice([99, "x", -1])}}
+
+    for _ in range(rng.randint(8, 22)):
+        r = rng.random()
+        if r < 0.6:
+            q = corrupt()
+            if q.pop("conflict", False):
+                # first put a slow operation in flight (a stop of the stubborn watcher), do not let it finish
+                s.append({"op": "req", "cmd": rng.choice(["stop", "restart"]), "props": {"name": "w1"}, "drain": False})
+                s.append({"op": "run", "n": rng.randint(0, 2)})
+                s.append(q)
+                s.append({"op": "tick", "n": rng.randint(1, 6)})
+            else:
+                s.append(q)
+        elif r < 0.75:
+            s.append({"op": "req", "cmd": rng.choice(["stop", "start", "incr", "decr", "restart"]),
+                      "props": {"name": rng.choice(["w1", "w2", "w3"]), "waiting": rng.random() < 0.5}})
+        elif r < 0.85:
+            s.append({"op": "die", "sel": [rng.choice(["w1", "w2", "w3"]), 0], "status": 256})
+        else:
+            s.append({"op": "tick", "n": rng.randint(1, 4)})
+    s.append({"op": "tick", "n": 8})
+    s.append({"op": "end", "xprobe": True, "passes": 1})
+    return sc
+
+
+PROFILES["refusal"] = refusal
